@@ -68,6 +68,9 @@ CORPUS = [
     {"kind": "one", "g": {"nodes": [0, 1, 2], "di": [[0, 1]], "bi": []}, "a": 0, "b": 1, "C": [0], "shuffle_seed": 13},
     {"kind": "one", "g": {"nodes": [0, 1, 2], "di": [[0, 1]], "bi": []}, "a": 0, "b": 0, "C": [], "shuffle_seed": 14},
     {"kind": "type", "which": "left"}, {"kind": "type", "which": "right"}, {"kind": "type", "which": "conditions"},
+    {"kind": "canon", "left": 2, "right": 1, "conds": [3, 0, 3], "sep": True},
+    {"kind": "canon", "left": 1, "right": 2, "conds": [0, 3, 3], "sep": False},
+    {"kind": "canon", "left": 1, "right": 1, "conds": [], "sep": True},
 ]
 
 
@@ -165,6 +168,14 @@ def cases(rng: random.Random, tier: str):
         elif r < 0.6:
             Cs = Cs + [92]
         out.append({"kind": "one", "g": g, "a": a, "b": b, "C": Cs, "shuffle_seed": rng.randrange(1 << 30)})
+    # DSeparationJudgement.create / is_canonical on arbitrary (also non-canonical) records
+    for _ in range(300 if tier == "quick" else 2000):
+        n = rng.randint(0, 5)
+        conds = [rng.randrange(8) for _ in range(n)]
+        if rng.random() < 0.5:
+            conds = sorted(conds) if rng.random() < 0.7 else sorted(set(conds))
+        out.append({"kind": "canon", "left": rng.randrange(8), "right": rng.randrange(8), "conds": conds,
+                    "sep": rng.random() < 0.5})
     # verdict tables
     for _ in range(200 if tier == "quick" else 1500):
         out.append({"kind": "table", "g": rand_admg(rng, 2, 4 if tier == "quick" else 5)})
@@ -245,10 +256,33 @@ def _run_table(case):
     return "#" + "".join(cells), fails
 
 
+def _run_canon(case):
+    """DSeparationJudgement built directly (possibly non-canonical) and through create()"""
+    from y0.struct import DSeparationJudgement
+
+    left, right, conds = G.V(case["left"]), G.V(case["right"]), tuple(G.V(c) for c in case["conds"])
+    raw = DSeparationJudgement(case["sep"], left, right, conds)
+    made = DSeparationJudgement.create(left, right, conds, separated=case["sep"])
+    out = ["ok", ["true" if raw.is_canonical else "false", _judgement(made)]]
+    fail = None
+    want_raw = case["left"] < case["right"] and list(case["conds"]) == sorted(case["conds"])
+    if raw.is_canonical != want_raw:
+        fail = f"is_canonical={raw.is_canonical} on ({case['left']},{case['right']}|{case['conds']})"
+    elif case["left"] != case["right"] and not made.is_canonical:
+        fail = "create() returned a non-canonical judgement"
+    elif [G.vint(made.left), G.vint(made.right)] != sorted([case["left"], case["right"]]) or \
+            [G.vint(c) for c in made.conditions] != sorted(set(case["conds"])) or made.separated != case["sep"]:
+        fail = f"create() does not carry the query: {made}"
+    return {"out": out, "fail": fail, "nontrivial": len(case["conds"]) >= 2,
+            "tags": {"kind": "canon", "raw_canonical": raw.is_canonical}}
+
+
 def run_python(case):
     kind = case["kind"]
     if kind == "type":
         return _run_type(case)
+    if kind == "canon":
+        return _run_canon(case)
     g = case["g"]
     V = G.all_nodes(g)
     if kind == "table":
@@ -323,6 +357,8 @@ def _run_type(case):
 def request(case):
     if case["kind"] == "type":
         return None
+    if case["kind"] == "canon":
+        return C.enc(["sep", "canon", case["sep"], case["left"], case["right"], case["conds"]])
     g = case["g"]
     gs = C.graph_sexp(g["nodes"], g["di"], g["bi"])
     if case["kind"] == "table":
@@ -333,6 +369,8 @@ def request(case):
 def canon_model(case, rep):
     if rep[0] == "err":
         return ["err"]
+    if case["kind"] == "canon":
+        return ["ok", [rep[1], rep[2]]]
     return ["ok", rep[1]]
 
 
@@ -358,7 +396,7 @@ def shrink(case):
 
 
 def finding_key(case, res):
-    c = {k: case[k] for k in ("kind", "g", "a", "b", "C", "which") if k in case}
+    c = {k: case[k] for k in ("kind", "g", "a", "b", "C", "which", "left", "right", "conds", "sep") if k in case}
     if "g" in c:
         c["g"] = {"nodes": sorted(G.all_nodes(c["g"])), "di": sorted(c["g"]["di"]), "bi": sorted(sorted(e) for e in c["g"]["bi"])}
     if "C" in c:
